@@ -181,6 +181,7 @@ func allocRoot(v ssa.Value) *ssa.Alloc {
 
 func (ex *Exec) havocLoop(st *State, fr *Frame, li *loopInfo) {
 	modAllocs := map[*ssa.Alloc]bool{}
+	modFree := map[*ssa.FreeVar]bool{}
 	iters := map[ssa.Value]bool{}
 	heapWrite := false
 	otherStore := false
@@ -193,6 +194,9 @@ func (ex *Exec) havocLoop(st *State, fr *Frame, li *loopInfo) {
 					if _, isArr := a.Type().(*types.Pointer).Elem().Underlying().(*types.Array); isArr {
 						heapWrite = true
 					}
+				} else if fv, ok := x.Addr.(*ssa.FreeVar); ok {
+					// a store to a captured variable: that cell only
+					modFree[fv] = true
 				} else {
 					if ia, ok := x.Addr.(*ssa.IndexAddr); ok {
 						_ = ia
@@ -272,8 +276,22 @@ func (ex *Exec) havocLoop(st *State, fr *Frame, li *loopInfo) {
 		}
 		st.mem[p.Obj] = ex.havocValue(st, p.Obj.T, st.mem[p.Obj], name)
 	}
+	for fv := range modFree {
+		if p, ok := fr.regs[fv].(*VPtr); ok && p.Obj != nil {
+			st.mem[p.Obj] = ex.havocValue(st, p.Obj.T, st.mem[p.Obj], fv.Name())
+		}
+	}
 	if otherStore {
 		for obj, v := range st.mem {
+			// objects of library struct types (the internals of a net.UDPConn ...) cannot be written by a store
+			// in the module's code; library calls on them are modelled by their contracts
+			if n, ok := obj.T.(*types.Named); ok && n.Obj().Pkg() != nil && !ex.inModule(n.Obj().Pkg()) {
+				if _, isStruct := n.Underlying().(*types.Struct); isStruct {
+					if _, isModel := modelTypes[typeKey(n)]; !isModel {
+						continue
+					}
+				}
+			}
 			if !obj.Fresh {
 				st.mem[obj] = ex.havocValue(st, obj.T, v, obj.Name)
 			}
@@ -565,6 +583,23 @@ func (ex *Exec) strConcat(st *State, a, b *Term) *Term {
 	}
 	if cb, ok := ex.strLitContent(b); ok && cb == "" {
 		return a
+	}
+	// both lengths known on this path: a string of known length with pointwise contents
+	if na, oka := ex.knownStrLen(st, a); oka {
+		if nb, okb := ex.knownStrLen(st, b); okb && na+nb <= 64 {
+			r := ex.fresh("concat", SStr)
+			st.assume(Eq(App("slen", SInt, r), IntLit(na+nb)))
+			if ex.cur != nil {
+				ex.cur.strLens[r.Key()] = na + nb
+			}
+			for i := int64(0); i < na; i++ {
+				st.assume(Eq(App("sat", SInt, r, IntLit(i)), App("sat", SInt, a, IntLit(i))))
+			}
+			for i := int64(0); i < nb; i++ {
+				st.assume(Eq(App("sat", SInt, r, IntLit(na+i)), App("sat", SInt, b, IntLit(i))))
+			}
+			return r
+		}
 	}
 	r := ex.fresh("concat", SStr)
 	la, lb := App("slen", SInt, a), App("slen", SInt, b)
